@@ -206,6 +206,88 @@ def _call(args):
     return part
 
 
+# ---------------------------------------------------------------------------------------------------------
+# the process environment as one more explored dimension.  A property must not depend on things outside the
+# arguments: whether asserts are compiled in (python -O), the logging level (the repository's own pytest.ini runs
+# at DEBUG), the string hash seed, the working directory, numpy's print options.  Besides the ordinary pass, a
+# fixed sample of the jobs of every pmap call (the last job of every job kind) is executed once more in a FRESH
+# interpreter started in that "hostile" environment; the job function and its arguments travel by pickle, the
+# resulting Part comes back by pickle.  Failures seen there carry the key prefix "env-hostile:" and replay there.
+HOSTILE_ENV = {"PYTHONHASHSEED": "4242", "VERIF_ENVMODE": "hostile"}
+HOSTILE_WHAT = "python -O, DEBUG logging on the root and chmpy loggers, PYTHONHASHSEED=4242, another working directory, numpy print options precision=0/threshold=4"
+HOSTILE_MAX_JOBS = 8
+
+
+def enter_hostile_process():
+    """called first thing in the fresh interpreter"""
+    import logging
+
+    import numpy as np
+
+    logging.getLogger().addHandler(logging.NullHandler())
+    logging.getLogger().setLevel(logging.DEBUG)
+    logging.getLogger("chmpy").setLevel(logging.DEBUG)
+    np.set_printoptions(precision=0, threshold=4, edgeitems=1)
+
+
+def _hostile_main(infile, outfile):
+    import importlib
+    import pickle
+
+    enter_hostile_process()
+    modname, fname, chunk, kw = pickle.load(open(infile, "rb"))
+    fn = getattr(importlib.import_module(modname), fname)
+    part = Part()
+    guarded(fn, part, chunk, kw)
+    pickle.dump(part, open(outfile, "wb"))
+
+
+def run_hostile(fn, chunk, kw):
+    """execute fn(part, chunk, **kw) in a fresh interpreter in the hostile environment; returns the Part (or one holding a harness failure)"""
+    import pickle
+    import subprocess
+    import sys
+    import tempfile
+
+    from mc.paths import REPO_SRC
+
+    d = tempfile.mkdtemp(prefix="verif_hostile_")
+    try:
+        pickle.dump((fn.__module__, fn.__name__, chunk, kw), open(os.path.join(d, "in.pkl"), "wb"))
+        code = "import sys; sys.path[:0] = [%r, %r]; from mc import core; core._hostile_main(sys.argv[1], sys.argv[2])" % (VERIF, REPO_SRC)
+        r = subprocess.run([sys.executable, "-O", "-B", "-c", code, os.path.join(d, "in.pkl"), os.path.join(d, "out.pkl")],
+                           capture_output=True, text=True, env=dict(os.environ, **HOSTILE_ENV), cwd=d)
+        if r.returncode != 0 or not os.path.exists(os.path.join(d, "out.pkl")):
+            part = Part()
+            part.fail("harness:hostile-interpreter", "the fresh interpreter for %s failed: %s" % (fn.__name__, r.stderr[-300:]), {"kind": "harness"})
+            return part
+        part = pickle.load(open(os.path.join(d, "out.pkl"), "rb"))
+    finally:
+        import shutil
+
+        shutil.rmtree(d, ignore_errors=True)
+    for i, (key, what, case) in enumerate(part.failures):
+        if not key.startswith("harness:"):
+            case = dict(case) if isinstance(case, dict) else {"case": case}
+            case["__env__"] = "hostile"
+            part.failures[i] = ("env-hostile:" + key, what + " [in a fresh interpreter with " + HOSTILE_WHAT + "]", case)
+    part.counters["hostile_env_jobs"] = part.counters.get("hostile_env_jobs", 0) + 1
+    return part
+
+
+def _call_hostile(args):
+    return run_hostile(*args)
+
+
+def hostile_sample(fn, chunks):
+    """the last job of every job kind (kind = leading string of a tuple job, else the function), at most HOSTILE_MAX_JOBS"""
+    last = {}
+    for c in chunks:
+        k = c[0] if isinstance(c, (tuple, list)) and len(c) and isinstance(c[0], str) else fn.__name__
+        last[k] = c
+    return list(last.values())[:HOSTILE_MAX_JOBS]
+
+
 class Ctx(Part):
     def __init__(self, pid, tier, seed, level):
         super().__init__()
@@ -238,15 +320,35 @@ class Ctx(Part):
         """
         chunks = list(chunks)
         nproc = min(nproc or NPROC, max(1, len(chunks)))
+        sample = [] if (os.environ.get("VERIF_ENVMODE") == "hostile" or os.environ.get("VERIF_NO_HOSTILE")) else hostile_sample(fn, chunks)
         if nproc == 1 or os.environ.get("VERIF_SERIAL"):
             for c in chunks:
                 p = Part()
                 guarded(fn, p, c, kw)
                 self.merge(p)
+            for c in sample:
+                self.merge_hostile(run_hostile(fn, c, kw))
             return
         with mp.get_context("fork").Pool(nproc) as pool:
+            hostile = pool.map_async(_call_hostile, [(fn, c, kw) for c in sample], chunksize=1) if sample else None
             for p in pool.imap(_call, [(fn, c, kw) for c in chunks], chunksize=1):
                 self.merge(p)
+            if hostile is not None:
+                for p in hostile.get():
+                    self.merge_hostile(p)
+
+    def merge_hostile(self, part):
+        """results of a job re-run in the hostile environment: failures already reported by the ordinary pass are not repeated"""
+        have = {k for k, _, _ in self.failures}
+        part.failures = [(k, w, c) for (k, w, c) in part.failures if k[len("env-hostile:"):] not in have]
+        part.extra = []
+        self.merge(part)
+
+    def hostile(self, fn, chunk=None, **kw):
+        """run fn(part, chunk, **kw) here AND once more in the hostile environment (for work done outside pmap)"""
+        guarded(fn, self, chunk, kw)
+        if os.environ.get("VERIF_ENVMODE") != "hostile" and not os.environ.get("VERIF_NO_HOSTILE"):
+            self.merge_hostile(run_hostile(fn, chunk, kw))
 
     def cap(self, what):
         self.exhaustive = False
